@@ -63,6 +63,8 @@ pub fn v1_ok_name(h: &v1::Header) -> &'static str {
         v1::Addresses::Unknown => "Ok(UNKNOWN)",
         v1::Addresses::Tcp4(_) => "Ok(TCP4)",
         v1::Addresses::Tcp6(_) => "Ok(TCP6)",
+        #[allow(unreachable_patterns)]
+        _ => "Ok(other)",
     }
 }
 
@@ -108,6 +110,8 @@ pub fn v2_name(r: &V2R) -> &'static str {
             v2::Addresses::IPv4(_) => "Ok(ipv4)",
             v2::Addresses::IPv6(_) => "Ok(ipv6)",
             v2::Addresses::Unix(_) => "Ok(unix)",
+            #[allow(unreachable_patterns)]
+            _ => "Ok(other)",
         },
         Ok(Err(e)) => v2_err_name(e),
     }
@@ -165,7 +169,7 @@ pub fn v2_universes(tier: Tier) -> Vec<Box<dyn Universe>> {
     vec![
         Box::new(u2::CtlUniverse),
         Box::new(u2::LenUniverse {
-            presents: tier.pick(u2::Presents::Boundaries, u2::Presents::EveryUpTo(2048)),
+            presents: tier.pick(u2::Presents::EveryUpTo(256), u2::Presents::EveryUpTo(8192)),
             name: "U2-len",
         }),
         Box::new(u2::sig_universe_with(tier == Tier::Thorough)),
